@@ -172,6 +172,7 @@ class FnDirective:
         self.rewrites = []    # dict(kind,count,old,new,why)
         self.nocanary = False
         self.split = 0
+        self.loop_heads = {}  # loop ordinal -> expected header text (optional)
         self.split_match = 1
         self.split_stub = ''
 
@@ -309,6 +310,9 @@ def parse_template(path):
                         nn = int(d[1])
                         binder = d[3] if len(d) > 3 and d[2] == 'binder' else None
                         fd.loops[nn] = (binder, body)
+                        if anchor:
+                            # `//@| <loop header>`: the text from the loop keyword up to its `{`
+                            fd.loop_heads[nn] = ' '.join(' '.join(anchor).split())
                     elif k == 'ghost':
                         where = d[1]
                         arg = int(d[2]) if len(d) > 2 else None
@@ -756,10 +760,42 @@ def splice_fn(fd, files, asm, canary=False, record=True):
     if fd.mode == 'proved':
         loops = loop_positions(text, mask)
         loops = [(p, kw) for (p, kw) in loops if p > top_br]
+        # loop ordinals of the template -> loops of this tree. Identity, unless the template gives the
+        # expected header of its loops and they do not line up (a loop was removed or added): then the
+        # longest common subsequence of headers decides, and contracts of loops that are gone are skipped
+        loop_map = {}
+        tmpl_n = sorted(set(list(fd.loops.keys()) + [a for (w, a, _, _) in fd.ghosts if w in ('before-loop', 'loop-body', 'after-loop') and a is not None]))
+        heads_here = [' '.join(text[p:header_brace(mask, p)].split()) for (p, kw) in loops]
+        lined_up = all((nn <= len(loops)) and (nn not in fd.loop_heads or heads_here[nn - 1] == fd.loop_heads[nn]) for nn in tmpl_n)
+        if lined_up and (not fd.loop_heads or len(loops) == max(fd.loop_heads)):
+            loop_map = {nn: nn - 1 for nn in tmpl_n}
+        elif fd.loop_heads and all(nn in fd.loop_heads for nn in tmpl_n):
+            A = [fd.loop_heads[nn] for nn in tmpl_n]
+            B = heads_here
+            L = [[0] * (len(B) + 1) for _ in range(len(A) + 1)]
+            for ia in range(len(A) - 1, -1, -1):
+                for ib in range(len(B) - 1, -1, -1):
+                    L[ia][ib] = L[ia + 1][ib + 1] + 1 if A[ia] == B[ib] else max(L[ia + 1][ib], L[ia][ib + 1])
+            ia = ib = 0
+            while ia < len(A) and ib < len(B):
+                if A[ia] == B[ib]:
+                    loop_map[tmpl_n[ia]] = ib
+                    ia += 1
+                    ib += 1
+                elif L[ia + 1][ib] >= L[ia][ib + 1]:
+                    ia += 1
+                else:
+                    ib += 1
+            gone = [nn for nn in tmpl_n if nn not in loop_map]
+            asm.log.setdefault('loops_not_present', []).append({'item': item, 'template_loops': gone,
+                                                                 'loops_here': len(loops)})
+        else:
+            bad = [nn for nn in tmpl_n if nn > len(loops)]
+            raise LostAnchor("%s has %d loops, contract refers to loop %s" % (item, len(loops), bad[:1] or tmpl_n))
         for nn, (binder, body) in fd.loops.items():
-            if nn < 1 or nn > len(loops):
-                raise LostAnchor("%s has %d loops, contract refers to loop %d" % (item, len(loops), nn))
-            p, kw = loops[nn - 1]
+            if nn not in loop_map:
+                continue
+            p, kw = loops[loop_map[nn]]
             hb = header_brace(mask, p)
             if binder:
                 if kw != 'for':
@@ -780,9 +816,11 @@ def splice_fn(fd, files, asm, canary=False, record=True):
             if where == 'entry':
                 ins(top_br + 1, ('BLOCK', payload), inline=True)
             elif where in ('before-loop', 'loop-body', 'after-loop'):
-                if arg is None or arg < 1 or arg > len(loops):
-                    raise LostAnchor("%s: ghost anchor refers to loop %s of %d" % (item, arg, len(loops)))
-                p, kw = loops[arg - 1]
+                if arg is None:
+                    raise LostAnchor("%s: ghost anchor without loop number" % item)
+                if arg not in loop_map:
+                    continue
+                p, kw = loops[loop_map[arg]]
                 hb = header_brace(mask, p)
                 if where == 'before-loop':
                     ls = text.rfind('\n', 0, p) + 1
